@@ -625,8 +625,9 @@ func tblDamage(c *Ctx, tc tblCase, tape *simrt.Tape) (vs []tblV, evals int) {
 	}
 	big := len(pairs) > 200
 	if big {
-		// every open of such a table validates a thousand records: 120 positions x 2 replacements
-		step = len(orig)/120 + 1
+		// every open of such a table validates a thousand records and every read-back makes a thousand Gets:
+		// 40 positions x 2 replacements
+		step = len(orig)/40 + 1
 		full := repl
 		repl = func(old byte) []byte { return full(old)[:2] }
 	}
@@ -656,7 +657,7 @@ func tblDamage(c *Ctx, tc tblCase, tape *simrt.Tape) (vs []tblV, evals int) {
 	// swapped records: exchange the byte ranges of two whole records of equal stored length, or adjacent records
 	if offs := recordOffsets(dir, pairs); len(offs) >= 2 {
 		for i := 0; i+1 < len(offs); i++ {
-			if big && i >= 20 {
+			if big && i >= 6 {
 				break
 			}
 			a0, a1 := offs[i], offs[i+1]
@@ -693,7 +694,7 @@ func tblDamage(c *Ctx, tc tblCase, tape *simrt.Tape) (vs []tblV, evals int) {
 		lstep = len(orig)/200 + 1
 	}
 	if big {
-		lstep = len(orig)/60 + 1
+		lstep = len(orig)/20 + 1
 	}
 	for pos := 8; pos < len(orig); pos += lstep {
 		for _, v := range []byte{orig[pos] ^ 1, orig[pos] ^ 0x80, 0x00, 0xff} {
@@ -804,6 +805,12 @@ func tablesimMain(c *Ctx) {
 		seed := c.RunSeed(i)
 		r := rand.New(rand.NewSource(seed))
 		tc := tblGen(r, c.Mode, c.Thorough())
+		if c.Mode == "damage" && tc.NKeys > 200 && time.Until(c.Deadline) < c.Deadline.Sub(c.startWall)*6/10 {
+			// a table of a thousand records takes minutes in the damage arm: such cases are only started in the first
+			// part of the budget, so that the check ends near its budget (the case is a small table instead)
+			tc.NKeys = 1 + r.Intn(6)
+			c.Count("probe:big-table-case-replaced-late-in-the-budget", 1)
+		}
 		c.Begin(seed, tc)
 		vs, evals := tblRun(c, tc, simrt.NewTape(seed))
 		c.Res.Runs++
